@@ -150,7 +150,7 @@ def run_shard(spec):
             elif rnd.random() < 0.6:
                 chars = [c for c in chars if c in ref_chars] + [rnd.choice(["\u2003", "\u3000", "\xa0", "\u2009", "\u205f"])]
         case = {"kind": "asm", "mode": mode, "chars": "".join(chars), "included": rnd.random() < 0.3, "before": rnd.choice([None, None, "utf-8", "cp866", "koi8-r", "latin-1", "utf-16"]),
-                "crlf": rnd.choice([None, None, "\r\n", "\r\n", " \r\n"])}
+                "crlf": rnd.choice([None, None, "\r\n", "\r\n", " \r\n"]), "cuts": [rnd.randrange(100) for _ in range(rnd.randrange(1, 3))] if rnd.random() < 0.4 else None}
         vs = run_case(case, cnt)
         res["violations"].extend(vs)
         cnt["asm_programs"] += 1
@@ -263,6 +263,14 @@ def run_case(case, cnt=None):
             directive = ".asciz" if mode.startswith("asciz") else ".ascii"
             src = f'{directive} "{chars}"\n'
             expect = bytes(ref_chars.get(c, 0) for c in chars) + (b"\0" if directive == ".asciz" else b"")
+            if case.get("cuts") and len(chars) >= 2:
+                # the same text as several quoted chunks with <n> bytes between them: every chunk is checked, whichever comes last
+                cuts = sorted({1 + c % (len(chars) - 1) for c in case["cuts"]})
+                pieces = [chars[a:b] for a, b in zip([0] + cuts, cuts + [len(chars)])]
+                src = directive + " " + " <101> ".join(f'"{pc}"' for pc in pieces) + "\n"
+                expect = b"A".join(bytes(ref_chars.get(c, 0) for c in pc) for pc in pieces) + (b"\0" if directive == ".asciz" else b"")
+                if cnt is not None:
+                    cnt["asm_chunked_strings"] = cnt.get("asm_chunked_strings", 0) + 1
         elif mode.startswith("tape"):
             src = f'make_wav "t9.wav", "{chars}"\n.word 1\n'
             expect = None
